@@ -36,6 +36,7 @@ ASSUMPTIONS = ["shutdown()/close() is called once, by one task; the caller's own
                "thorough: exhaustive over loop iterations of the listed timelines only"]
 REQUIRED_OBS = ["shutdown_instants_judged", "during_backoff", "during_handshake",
                 "during_connect_in_flight", "steady_state", "reinit_ok", "socket_level"]
+SOAK = True   # also judged by the whole-run monitors of the soak sessions (vf/soak.py)
 BUDGET = {"quick": 110, "thorough": 1500}
 
 TIMELINES = ["cold_refuse", "latency3", "handshake", "handshake_bytes", "slow_handshake",
